@@ -10,7 +10,8 @@ RULE = ('random trees mixing .py / .pyc / .pyo (protected by a sibling .py '
         '*directory* named x.py beside x.pyc), __pycache__ directories with '
         'orphans, --ignore_dir and non-identifier / .git / node_modules '
         'directories, symlinked directories (inside and outside the search '
-        'path), read-only files; every combination of -k, --usecompiled, '
+        'path; also links *named* __pycache__ / CVS / .git that point at a '
+        'store of source-less bytecode), read-only files; every combination of -k, --usecompiled, '
         '--path, --test-path, nested paths, --ignore_dir, --package. '
         'Observation: file-system snapshot (path, type, size, sha1, mode) '
         'before/after a --list-tests run + sys.addaudithook records of '
@@ -26,7 +27,8 @@ ASSUMPTIONS = ['model computed by an independent walk of the real tree',
                '.git, node_modules, behind a symlink) may or may not be '
                'deleted']
 FLOORS = {'runs': 400, 'orphans_must': 600, 'protected_checked': 2000,
-          'keep_runs': 100, 'audit_events': 500, 'lookalikes_checked': 800}
+          'keep_runs': 100, 'audit_events': 500, 'lookalikes_checked': 800,
+          'symlinked_cache_dirs': 40}
 BATCH_TIMEOUT = 300
 
 IGN_DEFAULT = ['.git', '.svn', 'CVS', '{arch}', '.arch-ids', '_darcs']
@@ -85,7 +87,23 @@ def build_tree(rng, root, prefix):
         if depth > 0:
             for _ in range(rng.randint(0, 3)):
                 fill(os.path.join(d, rng.choice(DIRS)), depth - 1)
+        if store and rng.random() < 0.07:
+            # a symbolic link carrying a name the cleanup must not enter
+            # (__pycache__, an ignored directory name), pointing at a
+            # directory full of bytecode without sources
+            ln = os.path.join(d, rng.choice(['__pycache__', '__pycache__',
+                                             'CVS', '.git', '_darcs']))
+            if not os.path.lexists(ln):
+                os.symlink(store[0], ln)
+                store.append(ln)
 
+    # bytecode store outside every search path (target of the links above)
+    store = []
+    st = os.path.join(root, '%s_store' % prefix)
+    os.makedirs(os.path.join(st, 'deeper'))
+    for n in ('a.cpython-312.pyc', 'b.pyc', 'c.pyo', 'deeper/d.pyc'):
+        open(os.path.join(st, n), 'w').write('cached %s\n' % n)
+    store.append(st)
     for i in range(rng.randint(1, 3)):
         top = '%s_top%d' % (prefix, i)
         tops.append(top)
@@ -310,6 +328,10 @@ def run_case(case):
                 if os.path.basename(p) in LOOKALIKES or
                 p.endswith(('.pyc', '.pyo'))]
         C('lookalikes_checked', len(look))
+        C('symlinked_cache_dirs', sum(
+            1 for p, v in before.items() if v[0] != 'file' and
+            os.path.islink(os.path.join(root, p)) and
+            os.path.basename(p) in ('__pycache__', 'CVS', '.git', '_darcs')))
     finally:
         # read-only files would otherwise survive rmtree
         for dp, ds, fs in os.walk(base):
